@@ -232,6 +232,25 @@ func c17Exec(x *Ctx) {
 			return f, true
 		}
 		clunk := func(f uint32) { call(&Msg{Type: Tclunk, Fid: f}) }
+		// a Twstat may arrive on a fid that is open, in any mode: the outcome is that of the path operation all the same
+		maybeOpen := func(f uint32, rel string) string {
+			if !r.Pct(40) {
+				return ""
+			}
+			fi, err := os.Stat(filepath.Join(B, rel))
+			if err != nil {
+				return ""
+			}
+			mode := uint8(r.Pick(0, 1, 2, 3))
+			if fi.IsDir() {
+				mode = 0
+			}
+			if rr := call(&Msg{Type: Topen, Fid: f, Mode: mode}); rr != nil && rr.M != nil && rr.M.Type == Ropen {
+				x.Probe("wstat-on-open-fid")
+				return fmt.Sprintf(" on a fid open with mode %d", mode)
+			}
+			return ""
+		}
 		compare := func(what string) bool {
 			sa, sb := snapshotTree(A, false), snapshotTree(B, false)
 			if d := diffSnap(sa, sb); d != "" {
@@ -504,6 +523,7 @@ func c17Exec(x *Ctx) {
 				if !ok {
 					continue
 				}
+				what += maybeOpen(f, tgt)
 				rr := mut(&Msg{Type: Twstat, Fid: f, Stat: nullStat(func(s *Stat) { s.Name = nn })})
 				if rr == nil || rr.M == nil {
 					return
@@ -538,9 +558,10 @@ func c17Exec(x *Ctx) {
 					clunk(f)
 					continue // dangling symlink: chmod/truncate follow it on both sides, nothing to learn
 				}
+				opened := maybeOpen(f, tgt)
 				if r.Bool() {
 					l := uint64(r.Pick(0, 1, int(fi.Size()), int(fi.Size())+1000, 7))
-					what := fmt.Sprintf("Twstat(%q, length=%d)", tgt, l)
+					what := fmt.Sprintf("Twstat(%q, length=%d)", tgt, l) + opened
 					rr := call(&Msg{Type: Twstat, Fid: f, Stat: nullStat(func(s *Stat) { s.Length = l })})
 					if rr == nil || rr.M == nil {
 						return
@@ -556,7 +577,7 @@ func c17Exec(x *Ctx) {
 					if fi.IsDir() {
 						keepDir = 0x80000000
 					}
-					what := fmt.Sprintf("Twstat(%q, mode=%o)", tgt, m)
+					what := fmt.Sprintf("Twstat(%q, mode=%o)", tgt, m) + opened
 					rr := call(&Msg{Type: Twstat, Fid: f, Stat: nullStat(func(s *Stat) { s.Mode = keepDir | m })})
 					if rr == nil || rr.M == nil {
 						return
@@ -577,7 +598,7 @@ func c17Exec(x *Ctx) {
 					continue
 				}
 				uid, gid := uint32(r.Pick(0, 1, 1000, 0xFFFFFFFF)), uint32(r.Pick(0, 2, 1000, 0xFFFFFFFF))
-				what := fmt.Sprintf("Twstat(%q, n_uid=%d, n_gid=%d)", tgt, uid, gid)
+				what := fmt.Sprintf("Twstat(%q, n_uid=%d, n_gid=%d)", tgt, uid, gid) + maybeOpen(f, tgt)
 				rr := mut(&Msg{Type: Twstat, Fid: f, Stat: nullStat(func(s *Stat) { s.Nuid, s.Ngid = uid, gid })})
 				if rr == nil || rr.M == nil {
 					return
@@ -605,7 +626,7 @@ func c17Exec(x *Ctx) {
 					continue
 				}
 				mt := uint32(1_400_000_000 + r.Intn(100000000))
-				what := fmt.Sprintf("Twstat(%q, mtime=%d)", tgt, mt)
+				what := fmt.Sprintf("Twstat(%q, mtime=%d)", tgt, mt) + maybeOpen(f, tgt)
 				rr := call(&Msg{Type: Twstat, Fid: f, Stat: nullStat(func(s *Stat) { s.Mtime = mt })})
 				if rr == nil || rr.M == nil {
 					return
